@@ -8,8 +8,13 @@ for f in sorted(glob.glob('/verif/seeded/%s-*/meta.json' % pid)):
     m = json.load(open(f))
     prior.append("- %s (files: %s)" % (m.get("summary", "")[:300], ", ".join(m.get("files", []))))
 PRIOR = ("\n\nChanges of this kind were ALREADY produced in an earlier round - do not repeat them or close variants; pick other "
-         "mechanisms, other functions, other input shapes:\n" + "\n".join(prior) + "\n") if prior and ("--round2" in sys.argv or "--round3" in sys.argv) else ""
-OUT = "out3" if "--round3" in sys.argv else ("out2" if "--round2" in sys.argv else "out")
+         "mechanisms, other functions, other input shapes:\n" + "\n".join(prior) + "\n") if prior and ("--round2" in sys.argv or "--round3" in sys.argv or "--round4" in sys.argv) else ""
+OUT = "out4" if "--round4" in sys.argv else ("out3" if "--round3" in sys.argv else ("out2" if "--round2" in sys.argv else "out"))
+EXTRA = (" At least ONE of your two changes must be of a kind the earlier ones rarely were: two cooperating edits in different "
+         "functions or files that each look fine alone; a fault at a particular point (an exception newly swallowed, or newly "
+         "raised, at one step of a multi-step computation); state that leaks between two uses of one object or between two "
+         "objects (a cache, a shared default, an argument that is mutated); or a code path only reached through an unusual but "
+         "public entry point (CubeSet, 3-D cubes, numeric arrays, strands, the legacy accessors).") if "--round4" in sys.argv else ""
 prop = [json.loads(l) for l in open('/verif/properties.jsonl') if l.strip() and json.loads(l)['id'] == pid][0]
 D = "/tmp/seed_%s" % pid
 print(f"""You are testing how well a semantic property of a Python library is protected. The library is Crunch-io/crunch-cube (a pure-Python library that turns Crunch.io cube JSON responses into crosstab measures). You have your own scratch git worktree of it at {D}/wt (source under {D}/wt/src/cr/cube, tests under {D}/wt/tests). Work ONLY inside {D} - never touch /repo or /verif, do not read anything under /verif.
@@ -23,7 +28,7 @@ Task: produce TWO different, realistic changes to the library source (each a sma
  1. the library still imports, and the repository's own test-suite still gives exactly the baseline result (2163 passed, same single pre-existing failure) - so the existing tests do not notice it;
  2. the property above is violated on some input: write a small demonstration script `{D}/{OUT}/<k>/demo.py` (k = 1, 2) that builds a cube response + transforms in memory (no fixture files needed, though you may load fixtures from the worktree's tests/fixtures), exercises the public API, checks the property on it with an assertion taken directly from the property text, exits 0 when the property holds and non-zero (assertion error) when it is violated. It must PASS (exit 0) on the unmodified worktree and FAIL with your change applied;
  3. the violation needs something specific to manifest - a particular shape of data (e.g. square tables, a missing category in the middle, zero weights, an unusual dimension-type pairing), a multi-step sequence of operations, an unusual but legal transform, or two cooperating sites - NOT something ordinary use would expose at once (a change that breaks every table is useless).
-The two changes must touch different mechanisms of the property (different functions/classes, ideally different files among the property's anchors).{PRIOR}
+The two changes must touch different mechanisms of the property (different functions/classes, ideally different files among the property's anchors).{EXTRA}{PRIOR}
 
 Procedure for each change k: edit the worktree; run `{D}/run_tests` and confirm the baseline result; run `{D}/py {D}/{OUT}/k/demo.py` and confirm it fails; save the patch with `git -C {D}/wt diff > {D}/{OUT}/k/patch.diff`; then `git -C {D}/wt checkout -- .` and confirm the demo passes on the clean tree. Also write `{D}/{OUT}/k/meta.json` = {{"property": "{pid}", "summary": "<one line: what the change does>", "needs": "<what specific input / sequence / configuration is needed for the violation to manifest>", "files": [...], "tests_result": "<the exact last line of run_tests with the change applied>", "demo_result_with_change": "<exit code + last line>", "demo_result_clean": "<exit code>"}}.
 Leave the worktree clean at the end. Final message: for each change one paragraph (what, where, why the tests miss it, what it needs to manifest) and the paths of the files you wrote.""")
